@@ -7,6 +7,7 @@ require (
 	github.com/holiman/uint256 v1.2.4
 	github.com/indexsupply/shovel v0.0.0
 	github.com/jackc/pgx/v5 v5.6.0
+	golang.org/x/crypto v0.24.0
 )
 
 require (
@@ -16,7 +17,6 @@ require (
 	github.com/jackc/puddle/v2 v2.2.1 // indirect
 	github.com/klauspost/compress v1.17.4 // indirect
 	github.com/xi2/xz v0.0.0-20171230120015-48954b6210f8 // indirect
-	golang.org/x/crypto v0.24.0 // indirect
 	golang.org/x/sync v0.7.0 // indirect
 	golang.org/x/sys v0.21.0 // indirect
 	golang.org/x/text v0.16.0 // indirect
